@@ -139,10 +139,6 @@ theorem forIn_or2 (ps : List NRef) (f g : NRef → Bool) (acc : Bool) :
     rw [ih, List.any_cons]
     cases acc <;> cases f a <;> cases g a <;> rfl
 
-theorem gate_if {α : Type} (A C : Bool) (x y : α) :
-    (if A = true then if (!C) = true then x else y else y) = if (A && !C) = true then x else y := by
-  cases A <;> cases C <;> rfl
-
 theorem propagate_necessity_gen (fuel : Nat) (s : H) (v : Lab) (n : NRef) :
     propagate_necessity_from_node fuel (setNec s v) n = setNec s (prop (necGH s) fuel v n) := by
   induction fuel generalizing v n with
@@ -150,18 +146,17 @@ theorem propagate_necessity_gen (fuel : Nat) (s : H) (v : Lab) (n : NRef) :
   | succ fuel ih =>
     unfold propagate_necessity_from_node
     simp only [Id.run, bind, pure]
-    rw [prop, loop_eq_foldl, gate_if]
-    simp only [sn_ttc, sn_children]
+    rw [prop, loop_eq_foldl]
+    simp only [has_ttc_distribution_tie, sn_ttc, sn_children]
     have hg : (necGH s).gate n = ttcGate (s.n n).ttc := rfl
-    rw [hg]; unfold ttcGate
-    by_cases hc : (dictTruthy (s.n n).ttc && dictHas (s.n n).ttc "name" &&
-          !["Enabled", "Disabled"].contains (dictGetS (s.n n).ttc "name")) = true
+    rw [hg]
+    by_cases hc : ttcGate (s.n n).ttc = true
     · simp only [hc, if_true]
     simp only [hc, Bool.false_eq_true, if_false]
     refine forIn_lab (setNec s) _ (stepL (necGH s) fuel) ?_ _ v
     intro v c
     simp only [setN_setNec]
-    simp only [sn_type, sn_parents, sn_nec, has_ttc_distribution_tie, sn_ttc, forIn_or2, ih]
+    simp only [sn_type, sn_parents, sn_nec, sn_ttc, forIn_or2, ih]
     by_cases h1 : (s.n c).type = "or"
     · have h2 : ¬ ("or" = "and") := by decide
       have hk : (necGH s).kind c = .allK := by simp [necGH, necKindS, h1]
@@ -348,45 +343,60 @@ theorem foldl_pair {A B C : Type} (f : A → C → A) (g : B → C → B) (l : L
   | nil => rfl
   | cons c l ih => simp only [List.foldl_cons, ih]
 
-/-- `calculate_viability_and_necessity`: both labellings are the model's outer loop, run on the graph read off
-the initial heap, in the stored node order, with fuel `|nodes| + 1`. -/
+theorem setN_emb_viab (s : H) (v w : Lab) (c : NRef) (b : Bool) :
+    (emb s (v, w)).setN c { (emb s (v, w)).n c with is_viable := b } = emb s (upd v c b, w) :=
+  setN_setViab (setNec s w) v c b
+theorem setN_emb_nec (s : H) (v w : Lab) (c : NRef) (b : Bool) :
+    (emb s (v, w)).setN c { (emb s (v, w)).n c with is_necessary := b } = emb s (v, upd w c b) :=
+  setN_setNec (setViab s v) w c b
+
+/-- `calculate_viability_and_necessity`: both labellings are the model's `calcAll` (reset loop, then evaluation /
+propagation loop), run on the graph read off the initial heap, in the stored node order, with fuel
+`|nodes| + 1`, from the labels the heap carries. -/
 theorem calculate_tie (s : H)
     (hk : ∀ r ∈ s.nodes, KnownType (s.n r).type)
     (hs : ∀ r ∈ s.nodes, StatusOK (s.n r)) :
     calculate_viability_and_necessity s =
-      .ok (setNec (setViab s (calcLab (viabGH s) (viabConstH s) (pyFuel s) s.nodes (labV s)))
-                  (calcLab (necGH s) (necConstH s) (pyFuel s) s.nodes (labN s))) := by
+      .ok (setNec (setViab s (calcAll (viabGH s) (viabConstH s) (pyFuel s) s.nodes (labV s)))
+                  (calcAll (necGH s) (necConstH s) (pyFuel s) s.nodes (labN s))) := by
   unfold calculate_viability_and_necessity
   dsimp only
-  rw [bind_pure]
   have h0 : s = emb s (labV s, labN s) := rfl
-  conv => lhs; arg 2; rw [h0]
-  rw [forIn_labM (m := Except PyErr) (emb s) _
-    (fun p c => (ostep (viabGH s) (viabConstH s) (pyFuel s) p.1 c, ostep (necGH s) (necConstH s) (pyFuel s) p.2 c))
-    s.nodes ?_ (labV s, labN s)]
-  · rw [foldl_pair, calcLab_eq, calcLab_eq]; rfl
-  · rintro ⟨v, w⟩ c hc
-    rw [emb_type]
-    by_cases ht : (s.n c).type = "exist" ∨ (s.n c).type = "notExist" ∨ (s.n c).type = "defense"
-    · have hcont : ["exist", "notExist", "defense"].contains (s.n c).type = true := by
-        rcases ht with ht | ht | ht <;> rw [ht] <;> decide
-      rw [if_pos hcont, eval_both_emb s v w c ht (hs c hc)]
-      show (if _ then _ else _) = _
-      simp only [emb_fuel, pv_emb, pn_emb, emb_viable, emb_necessary]
-      unfold ostep
-      rw [if_pos (kind_const s c ht).1, if_pos (kind_const s c ht).2]
-      simp only [upd_same]
-      cases viabConstH s c <;> cases necConstH s c <;> rfl
-    · have ht2 : (s.n c).type = "or" ∨ (s.n c).type = "and" := by
-        rcases hk c hc with h | h | h | h | h
-        · exact Or.inl h
-        · exact Or.inr h
-        · exact absurd (Or.inr (Or.inr h)) ht
-        · exact absurd (Or.inl h) ht
-        · exact absurd (Or.inr (Or.inl h)) ht
-      have hcont : ¬ (["exist", "notExist", "defense"].contains (s.n c).type = true) := by
-        rcases ht2 with h | h <;> rw [h] <;> decide
-      rw [if_neg hcont]
-      unfold ostep
-      rw [if_neg (kind_nonconst s c ht2).1, if_neg (kind_nonconst s c ht2).2]
+  conv => lhs; arg 1; arg 2; rw [h0]
+  -- the first loop: every node back to (viable, necessary)
+  rw [forIn_labM (m := Except PyErr) (emb s) _ (fun p c => (upd p.1 c true, upd p.2 c true)) s.nodes ?_
+    (labV s, labN s)]
+  · rw [pure_bind, foldl_pair (fun v c => upd v c true) (fun v c => upd v c true)]
+    show (forIn s.nodes (emb s (resetLab s.nodes (labV s), resetLab s.nodes (labN s))) _ >>= _) = _
+    -- the second loop: evaluate every status node and propagate from it if it is false
+    rw [forIn_labM (m := Except PyErr) (emb s) _
+      (fun p c => (ostep (viabGH s) (viabConstH s) (pyFuel s) p.1 c, ostep (necGH s) (necConstH s) (pyFuel s) p.2 c))
+      s.nodes ?_ _]
+    · rw [pure_bind, foldl_pair, ← calcLab_eq, ← calcLab_eq]; rfl
+    · rintro ⟨v, w⟩ c hc
+      rw [emb_type]
+      by_cases ht : (s.n c).type = "exist" ∨ (s.n c).type = "notExist" ∨ (s.n c).type = "defense"
+      · have hcont : ["exist", "notExist", "defense"].contains (s.n c).type = true := by
+          rcases ht with ht | ht | ht <;> rw [ht] <;> decide
+        rw [if_pos hcont, eval_both_emb s v w c ht (hs c hc)]
+        show (if _ then _ else _) = _
+        simp only [emb_fuel, pv_emb, pn_emb, emb_viable, emb_necessary]
+        unfold ostep
+        rw [if_pos (kind_const s c ht).1, if_pos (kind_const s c ht).2]
+        simp only [upd_same]
+        cases viabConstH s c <;> cases necConstH s c <;> rfl
+      · have ht2 : (s.n c).type = "or" ∨ (s.n c).type = "and" := by
+          rcases hk c hc with h | h | h | h | h
+          · exact Or.inl h
+          · exact Or.inr h
+          · exact absurd (Or.inr (Or.inr h)) ht
+          · exact absurd (Or.inl h) ht
+          · exact absurd (Or.inr (Or.inl h)) ht
+        have hcont : ¬ (["exist", "notExist", "defense"].contains (s.n c).type = true) := by
+          rcases ht2 with h | h <;> rw [h] <;> decide
+        rw [if_neg hcont]
+        unfold ostep
+        rw [if_neg (kind_nonconst s c ht2).1, if_neg (kind_nonconst s c ht2).2]
+  · rintro ⟨v, w⟩ c _
+    simp only [setN_emb_viab, setN_emb_nec]
 end MalVerif.Py.Tie
